@@ -4,11 +4,13 @@ package main
 
 import (
 	"errors"
+	"io"
 	"math/rand"
 	"os"
 	"path"
 	"path/filepath"
 	"sort"
+	"strconv"
 	"strings"
 	"syscall"
 	"time"
@@ -19,11 +21,21 @@ var c05Names = []string{"a", "b", "c", "d"}
 // c05Ent is one entry of a seed tree description (applied in order to both trees).
 type c05Ent struct {
 	P    string `json:"p"`              // path relative to the tree root
-	K    string `json:"k"`              // dir | file | sym | hard
+	K    string `json:"k"`              // dir | file | sym | hard | fill
 	Data string `json:"data,omitempty"` // file content
 	Mode uint32 `json:"mode,omitempty"` // os.FileMode bits (perm + setuid/setgid/sticky), dir and file
 	T    string `json:"t,omitempty"`    // sym: link text (relative to the root when TAbs); hard: source path
 	TAbs bool   `json:"tabs,omitempty"` // sym: the link text is <root>/<T>
+	// attributes the entry ALREADY has on disk before the first operation (applied with package os to both trees
+	// after everything was created and aged); nil = what c05Age gives
+	MT   *int64 `json:"mt,omitempty"`   // modification time, unix seconds
+	AT   *int64 `json:"at,omitempty"`   // access time, unix seconds (mt when only mt is given)
+	Size int64  `json:"size,omitempty"` // file: extended to this size as a sparse file (after Data was written)
+	UID  *int64 `json:"uid,omitempty"`  // owner (Lchown); nil = unchanged
+	GID  *int64 `json:"gid,omitempty"`
+	// fill: P is a directory that is created and filled with N entries whose names are L bytes long (see c05FillName)
+	N int `json:"n,omitempty"`
+	L int `json:"l,omitempty"`
 }
 
 // c05Op is one generated operation. Paths are relative to the tree root; the path mode decides
@@ -37,6 +49,10 @@ type c05Op struct {
 	Mode uint32 `json:"mode,omitempty"` // chmod: os.FileMode bits
 	N    int64  `json:"n,omitempty"`    // truncate: size; chtimes: mtime seconds
 	NS   int64  `json:"ns,omitempty"`   // chtimes: nanoseconds handed to the client (dropped by the protocol)
+	A    *int64 `json:"a,omitempty"`    // chtimes: atime seconds when it differs from the mtime (nil: the same as N)
+	UID  *int64 `json:"uid,omitempty"`  // chown: owner (nil: the uid of this process; -1: leave unchanged)
+	GID  *int64 `json:"gid,omitempty"`  // chown: group
+	Ctx  string `json:"ctx,omitempty"`  // readdirctx: live | cancelled | cancel-soon
 	Data string `json:"data,omitempty"` // create/openfile: bytes written after a successful open for writing
 }
 
@@ -54,6 +70,7 @@ func c05Join(root, rel string) string { return root + "/" + rel }
 
 // c05Build applies a seed tree description under root (which must exist and be empty) and ages
 // every non-symlink entry, so that "recent" modification times are those the operations produce.
+// Attributes an entry is to have ALREADY (owner, times) are applied last, with package os, to whatever exists.
 func c05Build(root string, tree []c05Ent) {
 	for _, e := range tree {
 		p := c05Join(root, e.P)
@@ -65,6 +82,9 @@ func c05Build(root string, tree []c05Ent) {
 		case "file":
 			if f, err := os.OpenFile(p, os.O_WRONLY|os.O_CREATE|os.O_EXCL, 0o644); err == nil {
 				f.WriteString(e.Data)
+				if e.Size > int64(len(e.Data)) {
+					f.Truncate(e.Size) // sparse
+				}
 				f.Close()
 				os.Chmod(p, os.FileMode(e.Mode))
 			}
@@ -76,9 +96,82 @@ func c05Build(root string, tree []c05Ent) {
 			os.Symlink(t, p)
 		case "hard":
 			os.Link(c05Join(root, e.T), p)
+		case "fill":
+			c05Fill(p, e.N, e.L)
 		}
 	}
 	c05Age(root)
+	for _, e := range tree {
+		p := c05Join(root, e.P)
+		if e.UID != nil || e.GID != nil {
+			u, g := int64(-1), int64(-1)
+			if e.UID != nil {
+				u = *e.UID
+			}
+			if e.GID != nil {
+				g = *e.GID
+			}
+			if os.Lchown(p, int(u), int(g)) == nil && (e.K == "dir" || e.K == "file") {
+				os.Chmod(p, os.FileMode(e.Mode)) // the kernel drops setuid/setgid on a change of owner
+			}
+		}
+	}
+	for _, e := range tree {
+		if (e.MT != nil || e.AT != nil) && e.K != "sym" {
+			m, a := c05Old, c05Old
+			if e.MT != nil {
+				m, a = time.Unix(*e.MT, 0), time.Unix(*e.MT, 0)
+			}
+			if e.AT != nil {
+				a = time.Unix(*e.AT, 0)
+			}
+			os.Chtimes(c05Join(root, e.P), a, m)
+		}
+	}
+}
+
+// c05FillName is the name of entry i of a filled directory: the number in base 36, padded with 'n' to l bytes
+// (at most 255). With l = 1 the first 36 names are one byte long, the others as short as the number allows.
+func c05FillName(i, l int) string {
+	s := strconv.FormatInt(int64(i), 36)
+	if l > 255 {
+		l = 255
+	}
+	if len(s) < l {
+		s += "_" + strings.Repeat("n", l-len(s)-1)
+	}
+	return s
+}
+
+// c05Fill creates dir and n entries in it: empty files mostly; entry i is an empty directory when i%16 == 3, a
+// directory holding one file when i%16 == 11, a symbolic link to entry 0 (relative text) when i%16 == 7, a file
+// with a few bytes when i%16 == 5.
+func c05Fill(dir string, n, l int) {
+	if n > 20000 {
+		n = 20000
+	}
+	if os.Mkdir(dir, 0o755) != nil {
+		return
+	}
+	for i := 0; i < n; i++ {
+		p := dir + "/" + c05FillName(i, l)
+		switch i % 16 {
+		case 3:
+			os.Mkdir(p, 0o755)
+		case 11:
+			if os.Mkdir(p, 0o755) == nil {
+				os.WriteFile(p+"/f", []byte("x"), 0o644)
+			}
+		case 7:
+			os.Symlink(c05FillName(0, l), p)
+		case 5:
+			os.WriteFile(p, []byte("data"), 0o644)
+		default:
+			if f, err := os.OpenFile(p, os.O_WRONLY|os.O_CREATE|os.O_EXCL, 0o644); err == nil {
+				f.Close()
+			}
+		}
+	}
 }
 
 func c05Age(root string) {
@@ -90,8 +183,101 @@ func c05Age(root string) {
 	})
 }
 
-// c05Clone makes dst (a directory that is emptied first) an exact copy of src: kinds, modes, contents,
-// link texts (absolute texts under src are re-based), hard-link groups and modification times.
+const c05BigFile = 1 << 20 // files larger than this are read (hashed, copied) as sparse files
+
+// c05SparseBlocks calls fn for every 4 KiB block of f that is not all zeros, looking only at the regions the file
+// system reports as data (SEEK_DATA / SEEK_HOLE); the result does not depend on how the file system laid the file out.
+func c05SparseBlocks(f *os.File, size int64, fn func(off int64, blk []byte)) error {
+	const seekData, seekHole = 3, 4
+	fd := int(f.Fd())
+	buf := make([]byte, 64<<10)
+	for off := int64(0); off < size; {
+		d, err := syscall.Seek(fd, off, seekData)
+		if err != nil {
+			if errors.Is(err, syscall.ENXIO) {
+				return nil // nothing but a hole up to the end
+			}
+			return err
+		}
+		e, err := syscall.Seek(fd, d, seekHole)
+		if err != nil {
+			return err
+		}
+		d &^= 4095
+		for pos := d; pos < e; {
+			n, err := f.ReadAt(buf[:min(int64(len(buf)), e-pos)], pos)
+			for b := 0; b < n; b += 4096 {
+				blk := buf[b:min(b+4096, n)]
+				zero := true
+				for _, x := range blk {
+					if x != 0 {
+						zero = false
+						break
+					}
+				}
+				if !zero {
+					fn(pos+int64(b), blk)
+				}
+			}
+			pos += int64(n)
+			if err != nil {
+				if err == io.EOF {
+					break
+				}
+				return err
+			}
+			if n == 0 {
+				break
+			}
+		}
+		off = e
+	}
+	return nil
+}
+
+func c05CopyFile(src, dst string, size int64) error {
+	if size <= c05BigFile {
+		b, err := os.ReadFile(src)
+		if err != nil {
+			return err
+		}
+		return os.WriteFile(dst, b, 0o600)
+	}
+	in, err := os.Open(src)
+	if err != nil {
+		return err
+	}
+	defer in.Close()
+	out, err := os.OpenFile(dst, os.O_WRONLY|os.O_CREATE|os.O_TRUNC, 0o600)
+	if err != nil {
+		return err
+	}
+	defer out.Close()
+	if err := out.Truncate(size); err != nil {
+		return err
+	}
+	var werr error
+	err = c05SparseBlocks(in, size, func(off int64, blk []byte) {
+		if _, e := out.WriteAt(blk, off); e != nil && werr == nil {
+			werr = e
+		}
+	})
+	if err == nil {
+		err = werr
+	}
+	return err
+}
+
+func c05Atime(fi os.FileInfo) time.Time {
+	if st, ok := fi.Sys().(*syscall.Stat_t); ok {
+		return time.Unix(st.Atim.Sec, st.Atim.Nsec)
+	}
+	return fi.ModTime()
+}
+
+// c05Clone makes dst (a directory that is emptied first) an exact copy of src: kinds, modes, owners, contents (large
+// files as sparse files), link texts (absolute texts under src are re-based), hard-link groups, access and
+// modification times.
 func c05Clone(src, dst string) error {
 	ents, _ := os.ReadDir(dst)
 	for _, e := range ents {
@@ -109,6 +295,11 @@ func c05Clone(src, dst string) error {
 	note := func(err error) {
 		if err != nil && firstErr == nil {
 			firstErr = err
+		}
+	}
+	own := func(q string, fi os.FileInfo) {
+		if st, ok := fi.Sys().(*syscall.Stat_t); ok && (st.Uid != uint32(os.Getuid()) || st.Gid != uint32(os.Getgid())) {
+			note(os.Lchown(q, int(st.Uid), int(st.Gid)))
 		}
 	}
 	filepath.Walk(src, func(p string, fi os.FileInfo, err error) error {
@@ -137,6 +328,7 @@ func c05Clone(src, dst string) error {
 				t = dst + t[len(src):]
 			}
 			note(os.Symlink(t, q))
+			own(q, fi)
 		case fi.Mode().IsRegular():
 			st := fi.Sys().(*syscall.Stat_t)
 			if first, ok := inodes[st.Ino]; ok {
@@ -144,17 +336,17 @@ func c05Clone(src, dst string) error {
 				return nil
 			}
 			inodes[st.Ino] = q
-			b, err := os.ReadFile(p)
-			note(err)
-			note(os.WriteFile(q, b, 0o600))
+			note(c05CopyFile(p, q, fi.Size()))
+			own(q, fi)
 			note(os.Chmod(q, fi.Mode()))
-			note(os.Chtimes(q, fi.ModTime(), fi.ModTime()))
+			note(os.Chtimes(q, c05Atime(fi), fi.ModTime()))
 		}
 		return nil
 	})
 	for i := len(dirs) - 1; i >= 0; i-- {
+		own(dirs[i].p, dirs[i].fi)
 		note(os.Chmod(dirs[i].p, dirs[i].fi.Mode()))
-		note(os.Chtimes(dirs[i].p, dirs[i].fi.ModTime(), dirs[i].fi.ModTime()))
+		note(os.Chtimes(dirs[i].p, c05Atime(dirs[i].fi), dirs[i].fi.ModTime()))
 	}
 	return firstErr
 }
@@ -450,7 +642,7 @@ var c05OpWeights = []struct {
 	{"mkdir", 8}, {"mkdirall", 5}, {"create", 6}, {"openfile", 8}, {"remove", 5}, {"rmdir", 4}, {"removeall", 4},
 	{"rename", 6}, {"posixrename", 4}, {"link", 5}, {"symlink", 10}, {"readlink", 4}, {"stat", 6}, {"lstat", 5},
 	{"chmod", 5}, {"chtimes", 4}, {"truncate", 4}, {"readdir", 5}, {"glob", 4}, {"walk", 3}, {"realpath", 3},
-	{"statvfs", 2}, {"chown", 2},
+	{"statvfs", 2}, {"chown", 3}, {"readdirctx", 3}, {"getwd", 1},
 }
 
 func (g *c05Gen) data() string {
@@ -558,19 +750,33 @@ func (g *c05Gen) next() c05Op {
 				op.P = q
 			}
 		}
-	case "stat", "lstat", "readdir", "walk", "realpath", "statvfs":
+	case "getwd":
+	case "stat", "lstat", "readdir", "readdirctx", "walk", "realpath", "statvfs":
 		op.P = readRoot()
 		if k == "walk" && g.rng.Intn(3) == 0 {
 			op.P = "."
+		}
+		if k == "readdirctx" {
+			op.Ctx = []string{"live", "live", "cancelled", "cancel-soon"}[g.rng.Intn(4)]
+			if g.rng.Intn(2) == 0 {
+				op.P = g.existing(ents, "dir")
+			}
 		}
 	case "chmod":
 		op.P = g.path(ents)
 		op.Mode = g.mode()
 	case "chtimes":
 		op.P = g.path(ents)
-		op.N = 1_000_000_000 + g.rng.Int63n(500_000_000)
+		if g.rng.Intn(100) < 50 && len(ents) > 0 {
+			op.P = ents[g.rng.Intn(len(ents))].rel
+		}
+		op.N = c05GenTime(g.rng)
 		if g.rng.Intn(2) == 0 {
 			op.NS = g.rng.Int63n(1_000_000_000)
+		}
+		if g.rng.Intn(2) == 0 { // atime != mtime
+			a := c05GenTime(g.rng)
+			op.A = &a
 		}
 	case "truncate":
 		op.P = g.path(ents)
@@ -578,10 +784,20 @@ func (g *c05Gen) next() c05Op {
 			op.P = g.existing(ents, "file")
 		}
 		op.N = g.rng.Int63n(21)
+		if g.rng.Intn(100) < 15 {
+			op.N = c05BoundSizes[g.rng.Intn(len(c05BoundSizes))]
+		}
 	case "glob":
 		op.P = c05GlobPatterns[g.rng.Intn(len(c05GlobPatterns))]
 	case "chown":
 		op.P = g.path(ents)
+		if g.rng.Intn(100) < 50 && len(ents) > 0 {
+			op.P = ents[g.rng.Intn(len(ents))].rel
+		}
+		if g.rng.Intn(100) < 70 { // otherwise: the ids of this process
+			u, gid := c05GenID(g.rng), c05GenID(g.rng)
+			op.UID, op.GID = &u, &gid
+		}
 	}
 	return op
 }
@@ -638,6 +854,29 @@ func c05SeedTree(rng *rand.Rand) []c05Ent {
 			}
 			e.K = "hard"
 			e.T = files[rng.Intn(len(files))]
+		}
+		// attributes the entry already has before the first operation: boundary times, owners, a sparse size
+		if e.K == "dir" || e.K == "file" {
+			if rng.Intn(100) < 20 {
+				m := c05GenTime(rng)
+				e.MT = &m
+				if rng.Intn(2) == 0 {
+					a := c05GenTime(rng)
+					e.AT = &a
+				}
+			}
+			if rng.Intn(100) < 12 {
+				u, g := c05GenID(rng), c05GenID(rng)
+				if u >= 0 {
+					e.UID = &u
+				}
+				if g >= 0 {
+					e.GID = &g
+				}
+			}
+			if e.K == "file" && rng.Intn(100) < 8 {
+				e.Size = c05BoundSizes[1+rng.Intn(len(c05BoundSizes)-1)]
+			}
 		}
 		used[p] = true
 		all = append(all, p)
